@@ -99,6 +99,15 @@ static void scenario(vrng *r, vbuf *t, uint64_t *kinds)
             case 11: ret = binson_write_bytes(&w, data, len); break;
             default: ret = binson_write_raw(&w, data, len); break;
             }
+            if (vrn(r, 40) == 0) {
+                /* documented NULL handling: false + ERROR_NULL, everything later refused */
+                switch (vrn(r, 3)) {
+                case 0: ret = binson_write_raw(&w, NULL, vrn(r, 2) ? 0 : len); break;
+                case 1: ret = binson_write_name(&w, NULL); break;
+                default: ret = binson_write_string(&w, NULL); break;
+                }
+                vb_u8(t, 0xAA); vb_u8(t, ret);
+            }
             vb_u8(t, ret); vb_u8(t, (uint8_t)w.error_flags); t_u64(t, binson_writer_get_counter(&w));
         }
         size_t used = binson_writer_get_counter(&w);
